@@ -128,17 +128,17 @@ type violation struct {
 }
 
 type result struct {
-	Property     string           `json:"property"`
-	Shard        int              `json:"shard"`
-	Evaluations  int64            `json:"evaluations"`
-	NontrivSigs  []string         `json:"nontrivial_sigs"`
-	Counters     map[string]int64 `json:"counters"`
+	Property     string              `json:"property"`
+	Shard        int                 `json:"shard"`
+	Evaluations  int64               `json:"evaluations"`
+	NontrivSigs  []string            `json:"nontrivial_sigs"`
+	Counters     map[string]int64    `json:"counters"`
 	Sets         map[string][]string `json:"sets"`
-	Samples      []any            `json:"samples"`
-	Violations   []violation      `json:"violations"`
-	Inconclusive []string         `json:"inconclusive"`
-	Complete     bool             `json:"complete"`
-	WallS        float64          `json:"wall_s"`
+	Samples      []any               `json:"samples"`
+	Violations   []violation         `json:"violations"`
+	Inconclusive []string            `json:"inconclusive"`
+	Complete     bool                `json:"complete"`
+	WallS        float64             `json:"wall_s"`
 }
 
 type runner struct {
@@ -146,11 +146,11 @@ type runner struct {
 	p  *runParams
 	mu sync.Mutex
 
-	jf      *os.File
-	res     result
-	nontriv map[string]struct{}
-	sets    map[string]map[string]struct{}
-	start   time.Time
+	jf         *os.File
+	res        result
+	nontriv    map[string]struct{}
+	sets       map[string]map[string]struct{}
+	start      time.Time
 	maxSamples int
 }
 
